@@ -15,6 +15,16 @@ def main(tier, seed):
     bins = [("dev", vlib.build_harness("dev")), ("release", vlib.build_harness("release"))]
     progs = scenarios.snippet_scenarios(rng, 1500 if tier == "quick" else 25000)
     profcheck.run_scenarios(rep, "snippets", progs, bins, PROP)
+    # the same sequences typed into the shipped REPL (yarel-cli with no argument): one snippet per line on stdin
+    import cli
+    seqs = [(r, r["prog"]) for r in rep.last_runs if r["done"] and not r["oom"] and not r["trig"]
+            and not any(sn.get("reset") for sn in r["prog"]["snips"])]
+    seqs = seqs[:: max(1, len(seqs) // (300 if tier == "quick" else 3000))]
+    nrepl = 0
+    for prof in ("dev", "release"):
+        nrepl += cli.run_repl(rep, cli.build_cli(prof), prof, seqs, "snippet sequence")
+    rep.coverage["sequences_typed_into_the_repl"] = nrepl
+    rep.coverage["traces_validated_against_impl"] += nrepl
     rep.coverage["exhaustive"] = False
     rep.sample({"kind": "snippets scenario", "id": progs[0][0], "structure": {"snippets": len(progs[0][1]["snips"]), "modules": [m["path"] for m in progs[0][1]["mods"]]}})
     rep.coverage["rule"] = ("seeded sequences of 2-6 snippets from a catalogue of 23 (definitions and their later uses, compile errors, uncaught throws at top "
